@@ -13,7 +13,40 @@ from .frontend import AnalysisError, Program, unparse
 from .values import Obj, V
 
 
-def json_projection(p: Program, with_conditional: bool = False):
+def json_projection_by_paths(analysis):
+    """The same projection from the abstract paths of MySensorsJSONEncoder.default applied to a Sensor and to a
+    ChildSensor (any form the interpreter can evaluate: tables, loops, comprehensions, helpers)."""
+    from .values import DictV, Sym
+
+    res: Dict[str, Set[str]] = {}
+    cond: Dict[str, Set[str]] = {}
+    ctx = analysis.context(analysis.versions[-1], "serial", "sync")
+    for cls, qual in (("Sensor", "sensor:Sensor"), ("ChildSensor", "sensor:ChildSensor")):
+        it = analysis.new_interp(ctx)
+        st = it.new_state()
+        enc = Sym(("root", "ENC"), ("cls", "persistence:MySensorsJSONEncoder"))
+        obj = Sym(("root", "O"), ("cls", qual))
+        dicts = []
+        for kind, s, v in analysis.run_root(it, "persistence:MySensorsJSONEncoder.default", [obj], enc, st):
+            if kind == "val" and isinstance(v, DictV) and v.closed:
+                dicts.append(v)
+            else:
+                return {}, {}
+        if not dicts:
+            return {}, {}
+        keys = set().union(*[set(d.entries) for d in dicts])
+        always = set.intersection(*[set(d.entries) for d in dicts])
+        res[cls] = {k for k in keys if isinstance(k, str)}
+        cond[cls] = res[cls] - always
+        # values must be the attributes of the same name
+        for d in dicts:
+            for k, val in d.entries.items():
+                if val.key() not in (("attr", obj.key(), k), ("attr", obj.key(), "_" + k)):
+                    cond[cls].add(f"{k} (encoded from {render(val.key())})")
+    return res, cond
+
+
+def json_projection(p: Program, with_conditional: bool = False, analysis=None):
     """{"Sensor": {...}, "ChildSensor": {...}} from MySensorsJSONEncoder.default.
 
     Recognised forms per class branch: a returned dict literal, or a dict literal bound to a
@@ -94,6 +127,8 @@ def json_projection(p: Program, with_conditional: bool = False):
         if keys:
             res.setdefault(cls, set()).update(keys)
             cond.setdefault(cls, set()).update(ckeys)
+    if ("Sensor" not in res or "ChildSensor" not in res) and analysis is not None:
+        res, cond = json_projection_by_paths(analysis)
     if "Sensor" not in res or "ChildSensor" not in res:
         raise AnalysisError("JSON encoder projection not recognised (expected a dict per class branch for Sensor and ChildSensor)")
     if with_conditional:
@@ -124,8 +159,8 @@ def render(key) -> str:
 
 
 class Classifier:
-    def __init__(self, p: Program):
-        proj = json_projection(p)
+    def __init__(self, p: Program, analysis=None):
+        proj = json_projection(p, analysis=analysis)
         self.sensor_attrs = set(proj["Sensor"]) - {"sensor_id", "children"}
         self.child_attrs = set(proj["ChildSensor"]) - {"id"}
         # private backing fields of the encoded properties
